@@ -44,6 +44,13 @@ def setup_worker():
 # blocks[name] = {"items": [...], "nested": name|None}
 
 
+def attr_value(spec, a, i):
+    """the value template i gives its module attribute a: normally a string naming its origin; a template may
+    also declare it with a falsy value or None, which is still that template's declaration"""
+    kind = spec.get("attrvals", {}).get(a, "str")
+    return {"str": "%s@T%d" % (a, i), "none": None, "zero": 0, "empty": "", "false": False}[kind]
+
+
 def emit_items(items, spec, out):
     for it in items:
         k = it[0]
@@ -52,7 +59,7 @@ def emit_items(items, spec, out):
         elif k == "call":
             out.append("${%s.%s()}" % (it[1], it[2]))
         elif k == "attr":
-            out.append("${%s.attr.%s}" % (it[1], it[2]))
+            out.append("${repr(%s.attr.%s)}" % (it[1], it[2]))
         elif k == "block":
             b = spec["blocks"][it[1]]
             out.append('<%%block name="%s">' % it[1])
@@ -78,7 +85,7 @@ def emit(spec, i, n):
     if spec["page"]:
         out.append('<%%page args="%s"/>' % ", ".join(spec["page"]))
     if spec["attrs"]:
-        out.append("<%%!\n%s\n%%>" % "\n".join("%s = '%s@T%d'" % (a, a, i) for a in spec["attrs"]))
+        out.append("<%%!\n%s\n%%>" % "\n".join("%s = %r" % (a, attr_value(spec, a, i)) for a in spec["attrs"]))
     emit_items(spec["body"], spec, out)
     for name, items in spec["defs"].items():
         out.append('<%%def name="%s()">' % name)
@@ -138,7 +145,7 @@ class Model:
             elif k == "attr":
                 j = self.resolve(it[1], i, it[2], attr=True)
                 self.calls += 1
-                self.out.append("%s@T%d" % (it[2], j))
+                self.out.append(repr(attr_value(self.T[j], it[2], j)))
             elif k == "block":
                 name = it[1]
                 if any(name in self.T[j]["blocks"] for j in range(i + 1, self.n + 1)):
@@ -224,6 +231,10 @@ def probe_chain(n, dmask, bmask, amask):
             spec["defs"]["d0"] = [("t", "d0@T%d" % i)]
         if amask[i]:
             spec["attrs"].append("a0")
+            if amask[i] == 2:
+                spec["attrvals"] = {"a0": "none"}
+            elif amask[i] == 3:
+                spec["attrvals"] = {"a0": "zero"}
         body = [("t", "B%d(" % i)]
         nss = ["self", "local"] + (["next"] if i > 0 else []) + (["parent"] if i < n else [])
         for ns in nss:
@@ -263,6 +274,7 @@ def rand_chain(r):
     chain = []
     for i in range(n + 1):
         spec = {"defs": {}, "blocks": {}, "attrs": [a for a in ATTRS if r.random() < 0.5], "page": [], "body": [], "dynamic": i < n and r.random() < 0.25}
+        spec["attrvals"] = {a: r.choice(["none", "zero", "empty", "false"]) for a in spec["attrs"] if r.random() < 0.3}
         for d in DEFS:
             if r.random() < 0.5:
                 spec["defs"][d] = None
@@ -397,7 +409,7 @@ def gen_cases(tier, seed):
     for n in (0, 1, 2):
         for dmask in itertools.product((0, 1), repeat=n + 1):
             for bmask in itertools.product((0, 1), repeat=n + 1):
-                for amask in itertools.product((0, 1), repeat=n + 1):
+                for amask in itertools.product((0, 1, 2) if tier == "quick" else (0, 1, 2, 3), repeat=n + 1):
                     batch.append([n, dmask, bmask, amask])
                     if len(batch) >= 40:
                         yield {"kind": "probe", "items": batch}
